@@ -177,6 +177,11 @@ class Interp:
         mod = self.load_module(module)
         f = mod.vars.get(fname)
         if not isinstance(f, Func):
+            for v in list(mod.vars.values()):       # entry declared as a (static) method of a top-level class
+                if isinstance(v, Cls) and v.find(fname) is not None:
+                    f = v.find(fname)
+                    break
+        if not isinstance(f, Func):
             raise GirError(f"entry {fname} is not a function")
         return self.call_func(f, list(args), {}, None, caller=(mod, 0))
 
@@ -200,6 +205,11 @@ class Interp:
                     hb(act, a, name)
                 return a.vars[name]
             a = a.parent
+        c = act.cls
+        if c is not None:
+            m = c.find(name)                 # unqualified call of a method of the enclosing class (Java-style static/implicit this)
+            if m is not None:
+                return Bound(act.this, m) if act.this is not None else m
         if name in BUILTINS:
             return BUILTINS[name]
         if name == "inp" and self.inputs is not None:
